@@ -47,6 +47,7 @@ THEOREMS = [
     "Lena.C14.mkVariable_rejects",
     "Lena.C14.mkCompose_rejects",
     "Lena.C14.mkCombine_rejects",
+    "Lena.C14.compose_name_keyword_ignored",
 ]
 TRUSTED = [
     "Lean 4.33.0 kernel; axioms limited to propext, Classical.choice, Quot.sound (audited by #print axioms on every run)",
@@ -790,6 +791,11 @@ def _exhaustive_cases(maxlen):
                 if n <= 3:
                     cases.append({"chain": [_leaf(1, "te"), comb, _leaf(2, "tf", {"a": 1})], "vals": vals2})
                     cases.append({"chain": [comb, {"k": "compose", "args": [_leaf(3, "te"), comb], "kw": {}}], "vals": vals2})
+    # keyword arguments of Compose (the `name` keyword has no effect: Lean `compose_name_keyword_ignored`)
+    for kw in ({"name": "foo"}, {"name": "foo", "a": 1}, {"a": {"l": [1]}, "u": "mm"}, {"type": "tg"}):
+        for args in ([_leaf(1, "ta")], [_leaf(1, "ta", {"a": 2}), _leaf(2, "tb")], [_leaf(1, ""), _leaf(2, "tb"), _leaf(3, "")]):
+            cases.append({"chain": [{"k": "compose", "args": args, "kw": kw}], "vals": vals2, "wild": True})
+            cases.append({"chain": [_leaf(0, "te"), {"k": "compose", "args": args, "kw": kw}], "vals": vals2, "wild": True})
     return cases
 
 
